@@ -41,6 +41,64 @@ class BuildError(Exception):
     pass
 
 
+# tie theorem (Props/FnsTie/*) -> (search script, label of the function in its DISAGREE lines)
+TIE_SEARCH = {
+    "validate_integer_tie": ("TieIndex", "validate_integer"),
+    "try_as_bounded_index_tie": ("TieIndex", "try_as_bounded_index"),
+    "make_bounded_range_tie": ("TieIndex", "make_bounded_range"),
+    "range_iter_new_tie": ("TieIndex", "ObjRangeIter::new"),
+    "range_iter_next_tie": ("TieIndex", "ObjRangeIter::next"),
+    "vec_iter_next_tie": ("TieIndex", "ObjVecIter::next"),
+    "tuple_iter_next_same": ("TieIndex", "ObjTupleIter::next"),
+    "hash_number_tie": ("TieHash", "hash_number"),
+    "fnv_write_tie": ("TieHash", "FnvHasher::write"),
+    "allocate_raw_tie": ("TiePacing", "allocate_raw"),
+    "collect_if_required_tie": ("TiePacing", "allocate_raw"),
+    "collect_tie": ("TiePacing", "allocate_raw"),
+    "alloc_glued_is_model": ("TiePacing", "allocate_raw"),
+    "precedence_from_discr": ("TieCompiler", "Precedence::from"),
+    "precedence_from_panics_iff": ("TieCompiler", "Precedence::from"),
+    "precedence_names_are_the_table": ("TieCompiler", "Precedence-enum"),
+    "patch_jump_tie": ("TieCompiler", "patch_jump"),
+    "emit_loop_tie": ("TieCompiler", "emit_loop"),
+    "patch_offset_at_tie": ("TieCompiler", "patch_offset_at"),
+}
+
+
+def tie_search(required):
+    """When a tie between a translated function body and its model no longer checks: run both (they are executable) on a grid of
+    inputs and report the inputs on which they differ.  Returns failure records (one per function, the first disagreement)."""
+    wanted = {}
+    for r in required:
+        if r in TIE_SEARCH:
+            script, label = TIE_SEARCH[r]
+            wanted.setdefault(script, set()).add(label)
+    found = []
+    for script, labels in sorted(wanted.items()):
+        rc, out = vlib.run_cmd(["lake", "env", "lean", "--run", "Search/%s.lean" % script], cwd=vlib.LEAN_DIR, timeout=600)
+        seen = set()
+        for l in out.splitlines():
+            if not l.startswith("DISAGREE "):
+                continue
+            fn = l.split()[1]
+            if fn in labels and fn not in seen:
+                seen.add(fn)
+                found.append({"kind": "tie", "name": "tie:" + fn, "script": script, "function": fn, "line": l,
+                              "signature": "translated body of %s differs from its model" % fn,
+                              "detail": "the Rust function as translated on this run (lean/Yarel/Gen/Fns.lean) and the hand-written model the "
+                                        "property theorems are about give different results on this input: " + l,
+                              "failing_input": True})
+    return found
+
+
+def tie_replay(payload):
+    rc, out = vlib.run_cmd(["lake", "env", "lean", "--run", "Search/%s.lean" % payload["script"]], cwd=vlib.LEAN_DIR, timeout=600)
+    again = [l for l in out.splitlines() if l.startswith("DISAGREE ") and l.split()[1] == payload["function"]]
+    if again:
+        return False, "still differs: " + again[0]
+    return True, "translated body and model agree on the searched inputs (%s)" % payload["function"]
+
+
 def main():
     ap = argparse.ArgumentParser()
     ap.add_argument("prop")
@@ -56,8 +114,13 @@ def main():
 
     if args.replay:
         payload = json.load(open(args.replay))
-        ctx.runner = ctx.build_runner()
-        ok, text = mod.replay(ctx, payload)
+        if payload.get("kind") == "tie":
+            import xlate_run
+            xlate_run.regenerate()
+            ok, text = tie_replay(payload)
+        else:
+            ctx.runner = ctx.build_runner()
+            ok, text = mod.replay(ctx, payload)
         print(text)
         if not ok:
             print("VIOLATION property=%s replay=%s" % (prop, args.replay))
@@ -169,7 +232,12 @@ def main():
     # 6. broken obligations with no failing input found by the correspondence: targeted search
     if broken and not violations:
         found = []
-        if ctx.runner is not None and hasattr(mod, "search"):
+        if any(b.startswith("lake build failed") for b in broken):
+            try:
+                found = tie_search(required)
+            except Exception:
+                print(traceback.format_exc())
+        if not found and ctx.runner is not None and hasattr(mod, "search"):
             try:
                 found = mod.search(ctx, broken)
             except Exception:
